@@ -153,7 +153,7 @@ func oracle(c *Case) error {
 		if cerr := fix.CompareOutcome(datas[k], curExpr, curGB, res, err); cerr != nil {
 			return fmt.Errorf("execution %d on index %d: %v", step, k, cerr)
 		}
-		if !reflect.DeepEqual(q.Expr, snapExpr) {
+		if !fix.SameExpr(q.Expr, snapExpr) {
 			return fmt.Errorf("after execution %d the Query's Expr changed: %s", step, q.Expr.String())
 		}
 		if len(q.GroupBy) != len(snapGB) || (len(snapGB) > 0 && !reflect.DeepEqual(q.GroupBy, snapGB)) {
